@@ -87,6 +87,7 @@ func registerModels(e *Engine) {
 	registerDist(e)
 	registerFS(e)
 	registerHTTP(e)
+	registerTV(e)
 	registerField(e)
 	registerEdwards(e)
 }
